@@ -57,6 +57,7 @@ class deadline:
         return False
 
 
+JOBS = max(1, int(os.environ.get('VERIF_JOBS', min(8, os.cpu_count() or 4))))   # parallel coqc / worker processes
 SLOW = 60   # seconds after which one ring perception counts as "does not return"
 
 
@@ -624,7 +625,7 @@ class CoqBatch:
             self.times.append((round(time.time() - t0, 1), len(flat), flat[0][1][:40]))
             return ok, [flat[i][:3] for i in failing], log, len(flat)
         ok_all, failing, logs, n = True, [], [], 0
-        with cf.ThreadPoolExecutor(max_workers=min(8, os.cpu_count() or 4)) as ex:
+        with cf.ThreadPoolExecutor(max_workers=JOBS) as ex:
             for ok, fl, log, k in ex.map(one, range(len(jobs))):
                 ok_all &= ok
                 failing += fl
@@ -1317,7 +1318,7 @@ def run(ck):
                 for first in range(0, npairs - k + 1):
                     jobs.append((n, k, first, 0))
         import multiprocessing as mp
-        with mp.get_context('fork').Pool(min(16, os.cpu_count() or 4)) as pool:
+        with mp.get_context('fork').Pool(JOBS) as pool:
             for out, finds in pool.imap_unordered(exhaustive_chunk, jobs, chunksize=1):
                 for key, v in out.items():
                     ck.count(f'thorough exhaustive:{key}', v)
